@@ -58,8 +58,8 @@ def setup():
 def make_cfg(seed, i, typ):
     rng = engine.rng_for(seed, NUM, i)
     r = rng.random
-    if typ == "enum":
-        cfg = campaign.gen_cfg(rng, maxfuns=(20, 30, 45), nmax=3, proj_p=0.04, reg_p=0.04, restarts_p=0.6, averaging_p=0.25)
+    if typ == "enum" and i % 10 != 7:
+        cfg = campaign.gen_cfg(rng, maxfuns=(20, 30, 45), nmax=3, proj_p=0.04, reg_p=0.10, restarts_p=0.6, averaging_p=0.25)
         if cfg.get("proj") or cfg.get("reg"):
             cfg["args"]["maxfun"] = min(cfg["args"]["maxfun"], 18)
         if i % 3 == 1 and not cfg.get("proj") and not cfg.get("reg"):
@@ -71,6 +71,8 @@ def make_cfg(seed, i, typ):
             if np.isfinite(f0) and f0 > 0:
                 cfg["user_params"]["model.abs_tol"] = f0 * float(rng.uniform(0.3, 0.8))
                 cfg["user_params"]["model.rel_tol"] = 0.0
+    elif typ in ("rand", "enum") and i % 10 == 7:
+        cfg = reg_threshold_cfg(np.random.default_rng([int(seed), NUM, int(i), 3]), enum=(typ == "enum"))
     elif typ == "rand":
         cfg = campaign.gen_cfg(rng, restarts_p=0.6, maxfuns=(5, 12, 25, 40, 60, 100, 200, 400), term_p=0.45, proj_p=0.05, reg_p=0.05)
         if cfg.get("proj") or cfg.get("reg"):
@@ -123,6 +125,32 @@ def make_cfg(seed, i, typ):
     return cfg
 
 
+def reg_threshold_cfg(g, enum=False):
+    """Regularised problem whose small-objective threshold lies between sum(r^2) and sum(r^2)+h(x) along the way: the exit test must
+    use the regularised objective (the quantity soln.obj reports), with or without logging, with or without averaging."""
+    n = int(g.integers(1, 4))
+    m = int(g.integers(n, n + 3))
+    spec = dict(kind=gen.pick(g, ["linear", "linear", "sinlin"]), n=n, m=m, pseed=int(g.integers(0, 2 ** 31)), cond=5.0, scale=1.0)
+    x0 = g.normal(size=n) * 2.0
+    lam = float(10.0 ** g.uniform(-1, 0.7))
+    reg = dict(type=gen.pick(g, ["l1", "l1", "l2"]), lam=lam)
+    cfg = dict(prob=spec, x0=x0.tolist(), lower=None, upper=None, reg=reg, user_params={},
+               args=dict(maxfun=int(gen.pick(g, [18, 30])) if enum else int(gen.pick(g, [30, 60])), rhoend=1e-6))
+    r0 = gen.make_residual(spec)(x0)
+    hfun = gen.make_regulariser(reg, n)[0]
+    f0 = float(r0 @ r0) + float(hfun(x0))
+    if not enum:
+        cfg["user_params"]["model.abs_tol"] = f0 * float(g.uniform(0.05, 0.7))
+        cfg["user_params"]["model.rel_tol"] = 0.0
+    if g.random() < 0.3:
+        cfg["nsamples"] = dict(kind="const", v=int(g.integers(2, 4)))
+    if g.random() < 0.3:
+        cfg["user_params"]["restarts.use_restarts"] = True
+    if g.random() < 0.6:
+        cfg["args"]["do_logging"] = False
+    return cfg
+
+
 def expected_rhoend(cfg, nrestarts):
     e = cfg["args"].get("rhoend", 1e-8)
     scale = (cfg.get("user_params") or {}).get("restarts.rhoend_scale", 1.0)
@@ -160,6 +188,10 @@ def check(run, cfg, res, tag):
         st["claim|sufficiently-small"] = st.get("claim|sufficiently-small", 0) + 1
         tab = oracles.point_table(run, h)
         f0 = tab[1]["obj"] if 1 in tab else np.nan
+        if 1 not in tab and not cfg.get("nsamples") and ctx.calls and cfg["args"].get("do_logging") is False:
+            # run without logging (no point numbers): without averaging the first call is the evaluation of x0
+            f0 = campaign.objective_of_call(ctx.calls[0], h)
+            st["claim|sufficiently-small|no-logging"] = st.get("claim|sufficiently-small|no-logging", 0) + 1
         thr = max(up.get("model.abs_tol", 1e-12), up.get("model.rel_tol", 1e-20) * f0) if np.isfinite(f0) else up.get("model.abs_tol", 1e-12)
         if not (s.obj <= thr * (1 + 1e-12)) and np.isfinite(f0):
             viol.append(V("small-objective-claim-false", "'%s' but obj=%r > max(abs_tol, rel_tol*f(x0)) = %r" % (s.msg, float(s.obj), thr),
@@ -220,6 +252,11 @@ def run_case(case):
     res = dict(stats={}, viol=[], nontrivial=[], inconclusive=[])
     typ = case["type"]
     cfg = case.get("cfg") or make_cfg(case["seed"], case["i"], typ)
+    if not case.get("cfg") and typ in ("enum", "rand") and (case["i"] % 4 == 1 or (cfg.get("reg") and case["i"] % 2 == 1)):
+        # a quarter of the runs (half of the regularised ones) with do_logging=False, as most users call it: the values that go
+        # into the log line must not be the values the exit tests use. Reference and derived runs alike.
+        cfg["args"]["do_logging"] = False
+        res["stats"]["runs_without_logging"] = 1
     case["cfg"] = cfg
     ref = one_run(cfg, res, typ)
     nder = 0
